@@ -2,6 +2,7 @@ package props
 
 import (
 	"go/ast"
+	"go/token"
 	"go/types"
 	"sort"
 	"strings"
@@ -81,7 +82,119 @@ func runC03(c *Ctx) {
 				}
 			}
 		}
-		hr := strings.Count(core.FullStr(f.Body), ".Meta.Data.HasRouting == 0")
-		c.R.Checkf(rule, "conn-state-members-in-order", c.pos(f.Pos()), ok && n >= 2 && hr >= 2, "both protocol branches pass (mark, must, outbound, mac, dscp, pname, pid) of the conn-state entry in parameter order and treat an entry without has_routing as 'no decision' (%d branches)", n)
+		// every call reads an entry that carries a decision: the call is guarded by has_routing != 0 on that
+		// entry, or the entry comes from a repo function that returns an entry only under that guard
+		info := f.Info()
+		g := f.Graph()
+		guarded := func(fg *core.Graph, finfo *types.Info, p core.Point) bool {
+			for _, gd := range fg.Guards(p) {
+				be, ok := gd.Cond.(*ast.BinaryExpr)
+				if !ok || !gd.Polarity {
+					continue
+				}
+				for _, pr := range [][2]ast.Expr{{be.X, be.Y}, {be.Y, be.X}} {
+					if strings.HasSuffix(core.FieldOf(finfo, pr[0]), ".HasRouting") {
+						if tv := finfo.Types[pr[1]]; tv.Value != nil && tv.Value.String() == "0" && (be.Op == token.NEQ || (be.Op == token.GTR && pr[0] == be.X) || (be.Op == token.LSS && pr[0] == be.Y)) {
+							return true
+						}
+					}
+				}
+			}
+			return false
+		}
+		providerOK := func(h *core.Func) bool {
+			if h == nil || h.Body == nil {
+				return false
+			}
+			hg := h.Graph()
+			all, some := true, false
+			for _, p := range hg.Find(func(n ast.Node) bool { _, ok := n.(*ast.ReturnStmt); return ok }) {
+				rs := p.Node().(*ast.ReturnStmt)
+				if len(rs.Results) == 0 {
+					all = false
+					continue
+				}
+				if id, ok := ast.Unparen(rs.Results[0]).(*ast.Ident); ok && id.Name == "nil" {
+					continue
+				}
+				some = true
+				if !guarded(hg, h.Info(), p) {
+					all = false
+				}
+			}
+			return all && some
+		}
+		hr := 0
+		protos := map[string]bool{}
+		for _, p := range g.Find(nodeCalls(info, "control.routingResultFromConnState")) {
+			okHere := guarded(g, info, p)
+			if !okHere {
+				// provider: the entry variable is defined by a call of a repo function
+				var root types.Object
+				ast.Inspect(p.Node(), func(m ast.Node) bool {
+					if call, ok := m.(*ast.CallExpr); ok && root == nil {
+						if cal := core.Callee(info, call); cal != nil && cal.Name() == "routingResultFromConnState" && len(call.Args) > 0 {
+							root = core.RootObj(info, call.Args[0])
+						}
+					}
+					return true
+				})
+				ast.Inspect(f.Body, func(m ast.Node) bool {
+					as, ok := m.(*ast.AssignStmt)
+					if !ok || len(as.Rhs) != 1 || root == nil {
+						return true
+					}
+					call, ok := ast.Unparen(as.Rhs[0]).(*ast.CallExpr)
+					if !ok {
+						return true
+					}
+					if id, ok := as.Lhs[0].(*ast.Ident); ok && info.ObjectOf(id) == root {
+						if cal := core.Callee(info, call); cal != nil && cal.Pkg() != nil {
+							if providerOK(c.P.FuncOfObj(cal)) {
+								okHere = true
+							}
+						}
+					}
+					return true
+				})
+			}
+			if okHere {
+				hr++
+			}
+			for _, gd := range g.Guards(p) {
+				if be, ok := gd.Cond.(*ast.BinaryExpr); ok && gd.Polarity && be.Op == token.EQL {
+					for _, e := range []ast.Expr{be.X, be.Y} {
+						if tv := info.Types[e]; tv.Value != nil {
+							protos[tv.Value.String()] = true
+						}
+					}
+				}
+			}
+		}
+		// switch-form: the case clause that holds the call lists the protocol constant
+		ast.Inspect(f.Body, func(m ast.Node) bool {
+			cc, ok := m.(*ast.CaseClause)
+			if !ok {
+				return true
+			}
+			has := false
+			ast.Inspect(cc, func(k ast.Node) bool {
+				if call, ok := k.(*ast.CallExpr); ok {
+					if cal := core.Callee(info, call); cal != nil && cal.Name() == "routingResultFromConnState" {
+						has = true
+					}
+				}
+				return true
+			})
+			if has {
+				for _, e := range cc.List {
+					if tv := info.Types[e]; tv.Value != nil {
+						protos[tv.Value.String()] = true
+					}
+				}
+			}
+			return true
+		})
+		c.R.Checkf(rule, "conn-state-members-in-order", c.pos(f.Pos()), ok && n >= 1 && hr == n && protos["6"] && protos["17"], "for TCP and for UDP the control plane passes (mark, must, outbound, mac, dscp, pname, pid) of the conn-state entry in parameter order and treats an entry without has_routing as 'no decision' (%d call(s), %d guarded by has_routing, protocols %v)", n, hr, protos)
 	}
 }
